@@ -56,6 +56,7 @@ func repairStep(a Attempt) (child.Step, string, bool) {
 
 type Case struct {
 	Attempts []Attempt `json:"attempts"` // the last one is valid
+	QUIC     bool      `json:"quic,omitempty"` // the process runs with -quic: every server also binds its UDP port
 }
 
 func validText(a Attempt, dir string) string {
@@ -83,7 +84,7 @@ func validText(a Attempt, dir string) string {
 	return sb.String()
 }
 
-var failureKinds = []string{"lex", "unknown-directive", "bad-arg", "bad-arg-after-hook", "missing-htpasswd", "bad-htpasswd", "htpasswd-user-missing", "missing-import", "missing-cert", "port-in-use", "port-in-use-first-site-ok", "bind-unavailable", "startup-callback", "tls-mix", "bad-proxy", "bad-tls-arg"}
+var failureKinds = []string{"lex", "unknown-directive", "bad-arg", "bad-arg-after-hook", "missing-htpasswd", "bad-htpasswd", "htpasswd-user-missing", "missing-import", "missing-cert", "port-in-use", "port-in-use-first-site-ok", "udp-port-in-use", "bind-unavailable", "startup-callback", "tls-mix", "bad-proxy", "bad-tls-arg"}
 
 func invalidText(a Attempt, dir string) string {
 	base := validText(Attempt{K: 900 + a.K, Sites: a.Sites, Auth: a.Auth, Hook: a.Hook}, dir)
@@ -111,6 +112,9 @@ func invalidText(a Attempt, dir string) string {
 		return base + fmt.Sprintf("https://localhost:8443 {\n\ttls %s/missing.crt %s/missing.key\n}\n", dir, dir)
 	case "port-in-use", "port-in-use-first-site-ok":
 		return base + "http://localhost:8099 {\n\tstatus 204 /\n}\nhttp://localhost:8084 {\n\tstatus 204 /\n}\nhttp://localhost:8085 {\n\tstatus 204 /\n}\n"
+	case "udp-port-in-use":
+		// with -quic on, the TCP port is free but the UDP port of the same number is taken
+		return base + "http://localhost:8087 {\n\tstatus 204 /\n}\nhttp://localhost:8088 {\n\tstatus 204 /\n}\n"
 	case "bind-unavailable":
 		return base + "http://localhost:8086 {\n\tbind 203.0.113.7\n\tstatus 204 /\n}\n"
 	case "startup-callback":
@@ -144,7 +148,8 @@ func mkdir() string {
 
 func script(c *Case, dir string, only int) *child.Script {
 	sc := &child.Script{Dir: dir, Probes: []string{"8081|localhost", "8082|localhost", "8083|localhost", "8084|localhost", "8085|localhost"}}
-	occupied := false
+	occupied, occupiedUDP := false, false
+	sc.QUIC = c.QUIC
 	atts := c.Attempts
 	if only >= 0 {
 		atts = atts[only:]
@@ -159,6 +164,10 @@ func script(c *Case, dir string, only int) *child.Script {
 	}
 	for _, a := range atts {
 		t := text(a, dir)
+		if a.Kind == "udp-port-in-use" && !occupiedUDP {
+			sc.Steps = append(sc.Steps, child.Step{Op: "occupy-udp", Port: "8087"})
+			occupiedUDP = true
+		}
 		if strings.HasPrefix(a.Kind, "port-in-use") && !occupied {
 			sc.Steps = append(sc.Steps, child.Step{Op: "occupy", Port: "8099"})
 			occupied = true
@@ -206,7 +215,7 @@ func runCase(c *Case) (nontrivial bool, err error) {
 	// map observations back to attempts (occupy steps are interleaved)
 	var obs []child.Obs
 	for _, o := range resA.Obs {
-		if o.Op != "occupy" && o.Op != "release" && o.Op != "writefile" {
+		if o.Op != "occupy" && o.Op != "occupy-udp" && o.Op != "release" && o.Op != "writefile" {
 			obs = append(obs, o)
 		}
 	}
@@ -237,7 +246,7 @@ func runCase(c *Case) (nontrivial bool, err error) {
 			// here it just means the history is different from the intended one
 			return false, fmt.Errorf("HARNESS: %s failed: %s", describe(i), clip(o.Err))
 		}
-		startStage := map[string]bool{"port-in-use": true, "port-in-use-first-site-ok": true, "bind-unavailable": true, "startup-callback": true, "tls-mix": true}
+		startStage := map[string]bool{"udp-port-in-use": true, "port-in-use": true, "port-in-use-first-site-ok": true, "bind-unavailable": true, "startup-callback": true, "tls-mix": true}
 		if a.Op == "validate" && startStage[a.Kind] {
 			// these only fail when really started: validation accepts them, and must not change the process
 			if !o.OK {
@@ -326,7 +335,7 @@ func tail(s string) string {
 }
 
 func genCase(t *rapid.T) *Case {
-	c := &Case{}
+	c := &Case{QUIC: rapid.IntRange(0, 3).Draw(t, "quic") == 0}
 	n := rapid.IntRange(1, 6).Draw(t, "n")
 	running := false
 	k := 0
@@ -346,6 +355,9 @@ func genCase(t *rapid.T) *Case {
 			// a kind whose file has been repaired would no longer fail
 			var kindsLeft []string
 			for _, fk := range failureKinds {
+				if fk == "udp-port-in-use" && !c.QUIC {
+					continue
+				}
 				if !repairedKind[fk] {
 					kindsLeft = append(kindsLeft, fk)
 				}
